@@ -989,6 +989,22 @@ BYTEARRAY_METHODS = {"extend": _ba_extend}
 def _dict_get(it, a, k, n):
     d, key = a[0], it.need(a[1])
     default = a[2] if len(a) > 2 else k.get("default", NONE)
+    if isinstance(key, VNone) and not d.concrete:
+        return default
+    if "type" in k and not isinstance(k["type"], VNone):
+        # MultiDict.get(key, type=T): conversion is abstract -- present and convertible gives
+        # some T value, otherwise the default (trusted: TypeConversionDict.get)
+        if it.spec:
+            raise Unsupported("dict.get(type=) in spec")
+        if it.branch(dict_has(it, d, key), "dict.get"):
+            tname = getattr(k["type"], "name", "")
+            if tname == "int":
+                ok = z3.Bool(it.ctx.fresh_name("conv_ok"))
+                if it.branch(ok, "conv"):
+                    return VInt(z3.Int(it.ctx.fresh_name("conv_int")))
+                return default
+            raise Unsupported(f"dict.get(type={tname})")
+        return default
     has = dict_has(it, d, key)
     if it.spec:
         raise Unsupported("dict.get in spec")
